@@ -21,7 +21,7 @@ WATCHDOG = {"quick": 900, "thorough": 3000}
 SANITIZE = {"quick": ["asan", "bounds"], "thorough": ["asan", "bounds"]}
 SANITIZE_SHARDS = {"quick": 1, "thorough": 1}
 REQUIRED_CLASSES = {t: ["equal_neighbouring_ranges", "extreme_reached_twice", "constant_prefix", "constant_suffix",
-                        "signal_len_2", "plateau_reversal", "float_signal", "closing_tie_decides", "near_equal_neighbours", "signal:other_container_or_dtype", "signal:fed_in_chunks", "find_turns:integer_typed_signal"]
+                        "signal_len_2", "plateau_reversal", "float_signal", "closing_tie_decides", "near_equal_neighbours", "signal:other_container_or_dtype", "signal:fed_in_chunks", "signal:streamed_through_reused_buffer", "find_turns:integer_typed_signal"]
                     for t in ("quick", "thorough")}
 REQUIRED_MONITORS = ["find_turns==ref", "fourpoint:cycles==ref(ordered,values+indices)", "fourpoint:residual==ref",
                      "threepoint:cycle_multiset==ref", "threepoint:residual==ref", "fkm:cycles==ref_hcm(ordered)",
@@ -138,14 +138,19 @@ def run_case(case, ctx):
         cuts = list(range(1, len(x))) if len(x) % 8 == 2 else sorted(set(int(c) for c in np.linspace(1, len(x) - 1, 1 + len(x) % 3)))
         feed = [x[a:b] for a, b in zip([0] + cuts, cuts + [len(x)])]
         ctx.tag("signal:fed_in_chunks")
-    r4 = rf.run("fourpoint", feed, vary=vary)
+    first_rep = None
+    if len(feed) > 1 and len(x) % 16 in (2, 6):
+        # streamed through one reused buffer: the first chunk's memory is overwritten before the second chunk arrives
+        vary, first_rep = True, rf.REPRESENTATIONS.index("reused_buffer")
+        ctx.tag("signal:streamed_through_reused_buffer")
+    r4 = rf.run("fourpoint", feed, vary=vary, first_rep=first_rep)
     got = list(zip(r4.vf.tolist(), r4.vt.tolist(), r4.i_f.tolist(), r4.i_t.tolist()))
     ctx.check("fourpoint:cycles==ref(ordered,values+indices)", got == ref_cycles, observed=got, expected=ref_cycles)
     gres = list(zip(r4.res_idx.tolist(), r4.res.tolist()))
     ctx.check("fourpoint:residual==ref", gres == [(i, v) for i, v in ref_res], observed=gres, expected=ref_res)
 
     # ---- three point: multiset of cycles, same residual
-    r3 = rf.run("threepoint", feed, vary=vary)
+    r3 = rf.run("threepoint", feed, vary=vary, first_rep=first_rep)
     got3 = collections.Counter(zip(r3.vf.tolist(), r3.vt.tolist(), r3.i_f.tolist(), r3.i_t.tolist()))
     ctx.check("threepoint:cycle_multiset==ref", got3 == collections.Counter(ref_cycles),
               observed=sorted(got3.elements()), expected=sorted(ref_cycles))
@@ -154,7 +159,7 @@ def run_case(case, ctx):
 
     # ---- FKM: HCM on interior reversals
     hc, hres = R.hcm([sig[i] for i in rev])
-    rk = rf.run("fkm", feed, vary=vary)
+    rk = rf.run("fkm", feed, vary=vary, first_rep=first_rep)
     gk = list(zip(rk.vf.tolist(), rk.vt.tolist()))
     ctx.check("fkm:cycles==ref_hcm(ordered)", gk == hc, observed=gk, expected=hc)
     ctx.check("fkm:residual==ref_hcm", rk.res.tolist() == hres, observed=rk.res, expected=hres)
